@@ -5,6 +5,11 @@ Fixed in git; an entry that stops working on a changed tree is reported as a vio
 import numpy as np
 
 
+def ncol(entry):
+    """Number of panel columns an entry is exercised with."""
+    return entry.get("ncol", 2 if entry["name"].startswith("column_ensemble") else 1)
+
+
 def always_seasonal(y, sp=None):
     return True
 
@@ -97,6 +102,11 @@ def panel_transformers():
                   "rowwise": rowwise, "multivariate": multivariate})
     add("padder", lambda: PaddingTransformer(pad_length=15))
     add("truncation", lambda: TruncationTransformer(lower=2, upper=8))
+    # lengths learned in fit, on panels of unequal-length series (nested container only)
+    add("truncation_fitted", lambda: TruncationTransformer())
+    L[-1]["unequal"] = True
+    add("padder_fitted", lambda: PaddingTransformer())
+    L[-1]["unequal"] = True
     add("interpolator", lambda: TSInterpolator(7))
     add("tabularizer", lambda: Tabularizer())
     add("column_concat", lambda: ColumnConcatenator())
@@ -146,6 +156,10 @@ def classifiers():
     # significant leaves MUSE without features (open finding MUSE-empty-bag, exercised by C17 only)
     add("muse", lambda: MUSE(p_threshold=1, random_state=0))
     add("individual_tde", lambda: IndividualTDE(random_state=0))
+    add("individual_tde_mv", lambda: IndividualTDE(random_state=0), multivariate=True)      # two dimensions
+    L[-1]["ncol"] = 2
+    add("muse_mv", lambda: MUSE(p_threshold=1, random_state=0), multivariate=True)
+    L[-1]["ncol"] = 2
     add("column_ensemble", lambda: ColumnEnsembleClassifier(
         [("a", TimeSeriesForestClassifier(n_estimators=3, random_state=0), [0]),
          ("b", TimeSeriesForestClassifier(n_estimators=3, random_state=1), [1])]), multivariate=True)
@@ -162,8 +176,9 @@ def regressors():
              "factory": lambda: TimeSeriesForestRegressor(n_estimators=4, random_state=0), "cost": "fast"}]
 
 
-def make_panel(n_instances, n_columns, n_timepoints, seed, cells="series", labels=None, noise=0.5):
-    """Deterministic small panel (nested DataFrame) + labels."""
+def make_panel(n_instances, n_columns, n_timepoints, seed, cells="series", labels=None, noise=0.5, unequal=False):
+    """Deterministic small panel (nested DataFrame) + labels.  unequal: instance i has n_timepoints - 2 * (i % 3)
+    time points (every third instance has the full length, the shortest length is n_timepoints - 4)."""
     import pandas as pd
     rng = np.random.RandomState(seed)
     labels = labels if labels is not None else [0, 1]
@@ -175,6 +190,8 @@ def make_panel(n_instances, n_columns, n_timepoints, seed, cells="series", label
             k = i % len(labels)
             base = np.sin(np.arange(n_timepoints) * (0.4 + 0.5 * k)) * (2 + k) + 3 * k + 0.3 * c
             v = base + rng.rand(n_timepoints) * noise
+            if unequal:
+                v = v[:n_timepoints - 2 * (i % 3)]
             col.append(pd.Series(v) if cells == "series" else v)
         cols["dim_%d" % c] = col
     return pd.DataFrame(cols), y
